@@ -157,8 +157,8 @@ var (
 	vocabIPs      = []string{"127.0.0.1", "10.0.0.1", "[::1]", "[2001:db8::1]", "127.0.0.2"}
 	vocabWildBase = []string{"example.com", "foo.example.com", "example.com.", "example.org", "ample.com", "xn--xample-9ua.com"}
 	vocabPSL      = []string{"com", "github.io", "co.uk", "localhost"} // need TolPSL
-	vocabSchemes  = []string{"https", "https", "http", "connector", "a+b-c.d"}
-	vocabPorts    = []string{"", "", "", ":1", ":8080", ":65535", ":*", ":8443"}
+	vocabSchemes  = []string{"https", "https", "https", "http", "http", "connector", "a+b-c.d", "wss", "ws", "ftp", "h2"}
+	vocabPorts    = []string{"", "", "", "", ":1", ":8080", ":65535", ":*", ":*", ":8443", ":443", ":80", ":21"}
 	vocabMethods  = []string{"GET", "POST", "HEAD", "PUT", "put", "DELETE", "delete", "PATCH", "patch", "OPTIONS", "PURGE", "QUERY", "Foo"}
 	vocabReqHdrs  = []string{"Authorization", "authorization", "AUTHORIZATION", "Content-Type", "X-Foo", "x-bar", "X-Baz-Qux", "Accept", "Cache-Control", "x-a", "X-Requested-With", "X-Foo-Bar", "x-fo"}
 	vocabResHdrs  = []string{"X-Response-Time", "x-foo", "Content-Length", "ETag", "Link", "X-Bar", "Cache-Control"}
@@ -214,7 +214,7 @@ func randToken(r *R, prefix string, maxLen int) string {
 
 func randPort(r *R, scheme string) string {
 	for {
-		p := pick(r, []int{r.Range(1, 65535), r.Range(1, 1024), r.Range(8000, 9000), 65535, 1, 79, 81, 442, 444})
+		p := pick(r, []int{r.Range(1, 65535), r.Range(1, 1024), r.Range(8000, 9000), 65535, 1, 79, 80, 81, 442, 443, 444, 21, 22})
 		if scheme == "http" && p == 80 || scheme == "https" && p == 443 {
 			continue
 		}
